@@ -18,6 +18,7 @@ var Zone3 = time.FixedZone("VZ3", 3*3600+30*60)
 // Opts steer generation; the zero value generates everything.
 type Opts struct {
 	NoBadUTF8    bool // only valid UTF-8 strings
+	NoLaxUTF8    bool // no strings that are invalid UTF-8 yet structurally well-formed (overlong, surrogates): open finding lax-utf8-string of C03
 	NoThirdZone  bool // times only in UTC or Local
 	NoBadYears   bool // years within 0..9999
 	NoComplexIm  bool // complex values with zero imaginary part only
@@ -135,6 +136,9 @@ func genString(rt *rapid.T, o Opts) string {
 	}
 	if (o.NoBadUTF8 || o.JSONSafe) && !validUTF8(s) {
 		s = strings.ToValidUTF8(s, "?")
+	}
+	if o.NoLaxUTF8 && !validUTF8(s) && StructurallyUTF8(s) {
+		s = "\xff" + s
 	}
 	return s
 }
